@@ -586,6 +586,14 @@ func (m *Machine) globalSlot(g *ssa.Global) *Value {
 			}
 		}
 		m.runInit(pkg)
+		if pkg.Pkg.Path() == "os" { // os's own init functions are not executed: os.Args = the program name
+			if ag, ok := pkg.Members["Args"].(*ssa.Global); ok {
+				arr := []Value{strLit("prog")}
+				var v Value = Slice{arr: &arr, off: 0, len: 1, cap: 1, et: types.Typ[types.String]}
+				m.globals[ag] = &v
+				delete(m.poisonedG, ag)
+			}
+		}
 	}
 	if s, ok := m.globals[g]; ok {
 		return s
